@@ -2,6 +2,7 @@ package main
 
 import (
 	"go/ast"
+	"go/constant"
 	"go/token"
 	"go/types"
 	"strings"
@@ -137,6 +138,26 @@ func runC05(c *Ctx) {
 				if s, ok := constString(chk.TypesInfo, rets[0].Results[0]); ok {
 					strTab[k.Name()] = s
 				}
+			}
+		}
+	}
+	if ss := c.P.Func("internal/checks.Severity.String"); ss != nil && ss.Decl.Recv != nil && len(ss.Decl.Recv.List) == 1 && len(ss.Decl.Recv.List[0].Names) == 1 {
+		// the table may be written any way (switch, array, map): decided by evaluating the method for
+		// each of the four constants
+		recv := chk.TypesInfo.Defs[ss.Decl.Recv.List[0].Names[0]]
+		for _, n := range order {
+			k, isConst := chk.Types.Scope().Lookup(n).(*types.Const)
+			if !isConst || recv == nil {
+				continue
+			}
+			iv, exact := constant.Int64Val(constant.ToInt(k.Val()))
+			if !exact {
+				continue
+			}
+			ev := &miniEval{info: chk.TypesInfo, prog: c.P, env: map[types.Object]mval{recv: {k: mvInt, i: iv}}}
+			ctl := ev.block(ss.Decl.Body.List)
+			if ev.undec == "" && ctl.kind == 'r' && ctl.ret.k == mvStr {
+				strTab[n] = ctl.ret.s
 			}
 		}
 	}
